@@ -1,10 +1,525 @@
-//! C17: the watchdog (real code) against stub explorers and a stub/real canister. (placeholder)
-use crate::run::RunOutcome;
-use crate::trace::*;
+//! C17: the real watchdog round (fetch over the ic-http mock transport incl. transforms, storage,
+//! health, api-access synchronisation) against stub explorers and a stub monitored canister,
+//! compared with an independent model of the decision on the latest round only.
 
-pub fn run_generated(_seed: u64, _thorough: bool) -> RunOutcome {
-    RunOutcome { harness_error: Some("C17 not built yet".into()), ..Default::default() }
+use crate::canister::{self, take_last_panic};
+use crate::rng::{Fnv, Rng};
+use crate::run::RunOutcome;
+use crate::sim::{violation, Stats};
+use crate::trace::*;
+use ic_btc_interface::{Config as CanisterConfig, Fees, Flag, Network};
+use ic_management_canister_types::HttpRequestResult;
+use std::cell::RefCell;
+use std::future::Future;
+use std::panic::{catch_unwind, AssertUnwindSafe};
+use std::rc::Rc;
+use std::task::{Context, Poll, Waker};
+use watchdog::verif_hooks as wd;
+
+const TARGETS: [wd::Canister; 5] = [
+    wd::Canister::BitcoinMainnet,
+    wd::Canister::BitcoinMainnetStaging,
+    wd::Canister::BitcoinTestnet,
+    wd::Canister::DogecoinMainnet,
+    wd::Canister::DogecoinMainnetStaging,
+];
+
+/// The stub monitored canister.
+#[derive(Default)]
+struct StubCanister {
+    height: Option<u64>,
+    flag: Option<bool>,
+    set_config_fails: bool,
+    set_config_calls: Vec<Option<Flag>>,
+    get_config_calls: u32,
 }
-pub fn run_trace(_cfg: RunConfig, _events: Vec<Event>) -> RunOutcome {
-    RunOutcome { harness_error: Some("C17 not built yet".into()), ..Default::default() }
+
+fn body_for(provider: &str, h: u64) -> String {
+    if provider.contains("bitcore") {
+        format!("[{{\"height\": {h}, \"hash\": \"00ab\", \"extra\": [1,2,3]}}]")
+    } else if provider.contains("blockchair") {
+        format!("{{\"data\": {{\"best_block_height\": {h}, \"blocks\": 1}}, \"context\": {{\"code\": 200}}}}")
+    } else if provider.contains("blockcypher") {
+        format!("{{\"name\": \"x\", \"height\": {h}, \"hash\": \"00\"}}")
+    } else {
+        format!("{h}")
+    }
+}
+
+fn wrong_type_body(provider: &str, h: u64, variant: u64) -> String {
+    let v = match variant % 4 {
+        0 => format!("\"{h}\""),
+        1 => format!("-{h}"),
+        2 => format!("{h}.5"),
+        _ => "null".to_string(),
+    };
+    if provider.contains("bitcore") {
+        format!("[{{\"height\": {v}}}]")
+    } else if provider.contains("blockchair") {
+        format!("{{\"data\": {{\"best_block_height\": {v}}}}}")
+    } else if provider.contains("blockcypher") {
+        format!("{{\"height\": {v}}}")
+    } else {
+        match variant % 4 {
+            0 => format!("{h}abc"),
+            1 => format!("-{h}"),
+            2 => format!("{h}.5"),
+            _ => "height".to_string(),
+        }
+    }
+}
+
+fn response(status: u64, body: Vec<u8>) -> HttpRequestResult {
+    HttpRequestResult {
+        status: candid::Nat::from(status),
+        headers: vec![],
+        body,
+    }
+}
+
+/// Independent model of the decision (C17).
+#[derive(Clone, Debug, PartialEq, Eq)]
+enum Decision {
+    NotEnoughData,
+    Ok,
+    Behind,
+    Ahead,
+}
+
+fn model_decision(heights: &[u64], canister: Option<u64>, behind: u64, ahead: u64, min_explorers: usize) -> Decision {
+    let Some(c) = canister else {
+        return Decision::NotEnoughData;
+    };
+    if heights.is_empty() || heights.len() < min_explorers {
+        return Decision::NotEnoughData;
+    }
+    let mut v = heights.to_vec();
+    v.sort();
+    let n = v.len();
+    let median = if n % 2 == 1 { v[n / 2] } else { (v[n / 2 - 1] + v[n / 2]) / 2 };
+    let lo = median as i128 - behind as i128;
+    let hi = median as i128 + ahead as i128;
+    let within = v.iter().filter(|h| (**h as i128) >= lo && (**h as i128) <= hi).count();
+    if within < min_explorers {
+        return Decision::NotEnoughData;
+    }
+    let c = c as i128;
+    if c < lo {
+        Decision::Behind
+    } else if c > hi {
+        Decision::Ahead
+    } else {
+        Decision::Ok
+    }
+}
+
+struct WdWorld {
+    providers: Vec<(String, ic_management_canister_types::HttpRequestArgs)>,
+    stub: Rc<RefCell<StubCanister>>,
+    cfg: wd::Config,
+    stats: Stats,
+    log: Fnv,
+    rounds_with_failure: u32,
+    rounds_with_quorum: u32,
+}
+
+fn poll_tick() -> Result<(), String> {
+    let mut fut = Box::pin(wd::tick());
+    let waker = Waker::noop();
+    let mut cx = Context::from_waker(waker);
+    match catch_unwind(AssertUnwindSafe(|| fut.as_mut().poll(&mut cx))) {
+        Ok(Poll::Ready(())) => Ok(()),
+        Ok(Poll::Pending) => {
+            std::mem::forget(fut);
+            Err("tick did not complete in one poll".into())
+        }
+        Err(_) => {
+            std::mem::forget(fut);
+            Err(format!("tick trapped: {}", take_last_panic()))
+        }
+    }
+}
+
+impl WdWorld {
+    fn new(cfg: &RunConfig) -> WdWorld {
+        let target = TARGETS[cfg.watchdog_target as usize % TARGETS.len()];
+        wd::init(target);
+        let wcfg = wd::get_config();
+        let all = wd::explorer_requests();
+        let providers: Vec<(String, ic_management_canister_types::HttpRequestArgs)> = wcfg
+            .explorers
+            .iter()
+            .map(|name| {
+                let req = all
+                    .iter()
+                    .find(|(n, _)| n == name)
+                    .unwrap_or_else(|| panic!("no request for provider {name}"))
+                    .1
+                    .clone();
+                (name.clone(), req)
+            })
+            .collect();
+        let stub = Rc::new(RefCell::new(StubCanister::default()));
+        let (s1, s2, s3) = (stub.clone(), stub.clone(), stub.clone());
+        wd::set_canister_handlers(
+            Box::new(move || s1.borrow().height),
+            Box::new(move || {
+                let mut s = s2.borrow_mut();
+                s.get_config_calls += 1;
+                s.flag.map(|f| CanisterConfig {
+                    stability_threshold: 144,
+                    network: Network::Mainnet,
+                    blocks_source: candid::Principal::management_canister(),
+                    syncing: Flag::Enabled,
+                    fees: Fees::default(),
+                    api_access: if f { Flag::Enabled } else { Flag::Disabled },
+                    disable_api_if_not_fully_synced: Flag::Enabled,
+                    watchdog_canister: None,
+                    burn_cycles: Flag::Disabled,
+                    lazily_evaluate_fee_percentiles: Flag::Disabled,
+                })
+            }),
+            Box::new(move |req| {
+                let mut s = s3.borrow_mut();
+                s.set_config_calls.push(req.api_access);
+                if s.set_config_fails {
+                    Err(())
+                } else {
+                    if let Some(f) = req.api_access {
+                        s.flag = Some(f == Flag::Enabled);
+                    }
+                    Ok(())
+                }
+            }),
+        );
+        WdWorld {
+            providers,
+            stub,
+            cfg: wcfg,
+            stats: Stats::default(),
+            log: Fnv::default(),
+            rounds_with_failure: 0,
+            rounds_with_quorum: 0,
+        }
+    }
+
+    fn round(&mut self, spec: &RoundSpec) -> Result<(), Violation> {
+        let n = self.providers.len();
+        // 1. explorers: register mocks in the given order
+        let mut order: Vec<usize> = spec.order.iter().map(|i| *i as usize % n.max(1)).collect();
+        for i in 0..n {
+            if !order.contains(&i) {
+                order.push(i);
+            }
+        }
+        order.dedup();
+        let mut expected: Vec<Option<u64>> = vec![None; n];
+        for idx in order {
+            let (name, req) = &self.providers[idx];
+            let (kind, value) = spec.explorers.get(idx).copied().unwrap_or((8, 0));
+            let fault = |s: &mut Stats, k: &str| s.fault(k);
+            match kind {
+                0 => {
+                    expected[idx] = Some(value);
+                    ic_http::mock::mock(req.clone(), response(200, body_for(name, value).into_bytes()));
+                }
+                1 => {
+                    fault(&mut self.stats, "F-http-status");
+                    let status = [404u64, 500, 429, 301, 204][(value % 5) as usize];
+                    ic_http::mock::mock(req.clone(), response(status, body_for(name, value).into_bytes()));
+                }
+                2 => {
+                    fault(&mut self.stats, "F-http-reject");
+                    use ic_cdk::call::RejectCode::*;
+                    let code = [SysFatal, SysTransient, DestinationInvalid, CanisterReject, CanisterError, SysUnknown][(value % 6) as usize];
+                    ic_http::mock::mock_error(req.clone(), (code, "simulated".into()));
+                }
+                3 => {
+                    fault(&mut self.stats, "F-http-empty");
+                    ic_http::mock::mock(req.clone(), response(200, vec![]));
+                }
+                4 => {
+                    fault(&mut self.stats, "F-http-garbage");
+                    let mut b = Rng::new(value).bytes(40);
+                    for x in b.iter_mut() {
+                        *x = b'a' + (*x % 26);
+                    }
+                    ic_http::mock::mock(req.clone(), response(200, b));
+                }
+                5 => {
+                    fault(&mut self.stats, "F-http-wrong-type");
+                    ic_http::mock::mock(req.clone(), response(200, wrong_type_body(name, 800_000 + value % 100, value).into_bytes()));
+                }
+                6 => {
+                    fault(&mut self.stats, "F-http-oversized");
+                    let mut body = body_for(name, value).into_bytes();
+                    body.extend(std::iter::repeat(b' ').take(5000));
+                    ic_http::mock::mock(req.clone(), response(200, body));
+                }
+                7 => {
+                    fault(&mut self.stats, "F-http-non-utf8");
+                    ic_http::mock::mock(req.clone(), response(200, vec![0xff, 0xfe, 0x80, 0x31, 0x32]));
+                }
+                9 => {
+                    // truncated JSON / number
+                    fault(&mut self.stats, "F-http-truncated");
+                    let b = body_for(name, value);
+                    let cut = if b.len() > 3 { b.len() - 2 } else { 0 };
+                    let body = if name.contains("bitcore") || name.contains("blockchair") || name.contains("blockcypher") { b[..cut].to_string() } else { String::new() };
+                    ic_http::mock::mock(req.clone(), response(200, body.into_bytes()));
+                }
+                _ => {
+                    fault(&mut self.stats, "F-http-reject");
+                    ic_http::mock::mock_error(req.clone(), (ic_cdk::call::RejectCode::SysTransient, "timeout".into()));
+                }
+            }
+        }
+        // 2. canister side
+        {
+            let mut s = self.stub.borrow_mut();
+            s.height = spec.canister_height;
+            s.flag = spec.actual_flag;
+            s.set_config_fails = spec.set_config_fails;
+            s.set_config_calls.clear();
+            s.get_config_calls = 0;
+            if spec.canister_height.is_none() || spec.actual_flag.is_none() || spec.set_config_fails {
+                self.stats.fault("F-wcall");
+            }
+        }
+        // 3. the real tick
+        poll_tick().map_err(|e| violation("C17", "tick-trap", e))?;
+        // 4. model on this round only
+        let heights: Vec<u64> = expected.iter().filter_map(|h| *h).collect();
+        if heights.len() < n {
+            self.rounds_with_failure += 1;
+            self.stats.probe("round_with_failed_explorer");
+        }
+        let want = model_decision(
+            &heights,
+            spec.canister_height,
+            self.cfg.blocks_behind_threshold,
+            self.cfg.blocks_ahead_threshold,
+            self.cfg.min_explorers as usize,
+        );
+        if want != Decision::NotEnoughData {
+            self.rounds_with_quorum += 1;
+            self.stats.probe("round_with_quorum");
+        } else {
+            self.stats.probe("round_not_enough_data");
+        }
+        let status = wd::health_status();
+        let got = match status.height_status {
+            wd::HeightStatus::NotEnoughData => Decision::NotEnoughData,
+            wd::HeightStatus::Ok => Decision::Ok,
+            wd::HeightStatus::Behind => Decision::Behind,
+            wd::HeightStatus::Ahead => Decision::Ahead,
+        };
+        self.stats.oracle_comparisons += 1;
+        self.log.write_str(&format!("{:?}{:?}", got, want));
+        let desc = format!(
+            "explorer results this round {:?} (spec {:?}), canister height {:?}, thresholds -{}/+{}, min_explorers {}",
+            expected, spec.explorers, spec.canister_height, self.cfg.blocks_behind_threshold, self.cfg.blocks_ahead_threshold, self.cfg.min_explorers
+        );
+        if got != want {
+            return Err(violation("C17", "status-mismatch", format!("health status {:?}, model {:?}; {desc}", got, want)));
+        }
+        // what the status reports about explorers must be this round's data
+        for (i, (name, _)) in self.providers.iter().enumerate() {
+            let reported = status.explorers.iter().find(|b| &b.provider == name).and_then(|b| b.height);
+            if reported != expected[i] {
+                return Err(violation(
+                    "C17",
+                    "stale-or-wrong-explorer-height",
+                    format!("provider {name}: status reports {:?}, this round's fetch gave {:?}; {desc}", reported, expected[i]),
+                ));
+            }
+        }
+        let want_target = match want {
+            Decision::NotEnoughData => None,
+            Decision::Ok => Some(Flag::Enabled),
+            _ => Some(Flag::Disabled),
+        };
+        let target = wd::get_api_access_target();
+        if target != want_target {
+            return Err(violation("C17", "target-mismatch", format!("api access target {:?}, model {:?}; {desc}", target, want_target)));
+        }
+        // set_config is sent iff a target exists and differs from the canister's actual flag
+        let actual = spec.actual_flag.map(|f| if f { Flag::Enabled } else { Flag::Disabled });
+        let calls = self.stub.borrow().set_config_calls.clone();
+        let want_calls: Vec<Option<Flag>> = match want_target {
+            Some(t) if Some(t) != actual => vec![Some(t)],
+            _ => vec![],
+        };
+        if calls != want_calls {
+            return Err(violation(
+                "C17",
+                "set-config-mismatch",
+                format!("set_config calls {:?}, expected {:?} (target {:?}, actual flag {:?}); {desc}", calls, want_calls, want_target, actual),
+            ));
+        }
+        if !want_calls.is_empty() && !spec.set_config_fails {
+            let flag_now = self.stub.borrow().flag;
+            if flag_now != want_target.map(|t| t == Flag::Enabled) {
+                return Err(violation("C17", "flag-not-applied", format!("canister flag {:?} after set_config, target {:?}", flag_now, want_target)));
+            }
+            self.stats.probe("flag_changed_by_watchdog");
+        }
+        // 5. order independence: permute the explorer list and repeat the round
+        let mut perm = self.cfg.explorers.clone();
+        let mut prng = Rng::new(spec.permute_seed);
+        for i in (1..perm.len()).rev() {
+            let j = prng.usize_below(i + 1);
+            perm.swap(i, j);
+        }
+        if perm != self.cfg.explorers {
+            let mut c2 = self.cfg.clone();
+            c2.explorers = perm;
+            wd::set_config(c2);
+            {
+                let mut s = self.stub.borrow_mut();
+                s.flag = spec.actual_flag;
+                s.set_config_calls.clear();
+            }
+            let r = poll_tick();
+            let status2 = wd::health_status();
+            let target2 = wd::get_api_access_target();
+            wd::set_config(self.cfg.clone());
+            r.map_err(|e| violation("C17", "tick-trap", e))?;
+            self.stats.oracle_comparisons += 1;
+            if status2.height_status != status.height_status || target2 != target || status2.explorer_height != status.explorer_height {
+                return Err(violation(
+                    "C17",
+                    "order-dependence",
+                    format!("decision changed when the explorers were permuted: {:?}/{:?} vs {:?}/{:?}; {desc}", status.height_status, target, status2.height_status, target2),
+                ));
+            }
+            self.stats.probe("permutation_checked");
+        }
+        Ok(())
+    }
+}
+
+fn draw_round(rng: &mut Rng, n: usize, base: &mut u64, behind: u64, ahead: u64) -> RoundSpec {
+    *base += rng.below(3);
+    let fail_rate = *rng.pick(&[0u64, 1, 3, 6, 9]);
+    let span = behind.max(ahead).max(1);
+    let explorers: Vec<(u8, u64)> = (0..n)
+        .map(|_| {
+            if rng.below(10) < fail_rate {
+                (rng.range(1, 9) as u8, rng.next_u64() % 1000)
+            } else {
+                let off: i64 = match rng.below(10) {
+                    0..=3 => 0,
+                    4 => 1,
+                    5 => -1,
+                    6 => span as i64,
+                    7 => -(span as i64),
+                    8 => span as i64 + 1,
+                    _ => -(3 * span as i64) - 7,
+                };
+                (0, (*base as i64 + off).max(1000) as u64)
+            }
+        })
+        .collect();
+    let mut order: Vec<u8> = (0..n as u8).collect();
+    for i in (1..order.len()).rev() {
+        let j = rng.usize_below(i + 1);
+        order.swap(i, j);
+    }
+    let c_off: i64 = match rng.below(12) {
+        0..=2 => 0,
+        3 => behind as i64,
+        4 => -(behind as i64),
+        5 => ahead as i64,
+        6 => ahead as i64 + 1,
+        7 => -(behind as i64) - 1,
+        8 => 1,
+        9 => -1,
+        10 => 40 * span as i64,
+        _ => -(40 * span as i64),
+    };
+    RoundSpec {
+        explorers,
+        order,
+        canister_height: if rng.chance(1, 9) { None } else { Some((*base as i64 + c_off).max(1) as u64) },
+        actual_flag: if rng.chance(1, 10) { None } else { Some(rng.chance(1, 2)) },
+        set_config_fails: rng.chance(1, 10),
+        permute_seed: rng.next_u64(),
+    }
+}
+
+fn finish(w: WdWorld, cfg: RunConfig, events: Vec<Event>, violation: Option<Violation>, applied: usize) -> RunOutcome {
+    let mut fp = Fnv::default();
+    fp.write_u64(w.log.0);
+    RunOutcome {
+        config: Some(cfg),
+        events,
+        violation,
+        log_digest: w.log.0,
+        fingerprint: fp.0,
+        nontrivial: w.rounds_with_failure >= 1 && w.rounds_with_quorum >= 1,
+        stats: w.stats,
+        harness_error: None,
+        applied_events: applied,
+        desynced: false,
+        known_hits: Default::default(),
+    }
+}
+
+pub fn run_generated(seed: u64, thorough: bool) -> RunOutcome {
+    canister::install_quiet_panic_hook();
+    let mut rng = Rng::new(seed);
+    let cfg = RunConfig {
+        seed,
+        profile: "C17".into(),
+        network: "mainnet".into(),
+        threshold: 0,
+        wallet_seed: 0,
+        wallet_size: 0,
+        page_limit: 0,
+        bucket_pages: 0,
+        lazy_fees: false,
+        sync_flag: false,
+        fees: None,
+        quiesce: false,
+        watchdog_target: rng.below(5) as u8,
+    };
+    let mut w = WdWorld::new(&cfg);
+    let rounds = rng.range(3, if thorough { 40 } else { 14 });
+    let n = w.providers.len();
+    let mut base = 800_000 + rng.below(100_000);
+    let mut events = vec![];
+    let mut violation = None;
+    let (behind, ahead) = (w.cfg.blocks_behind_threshold, w.cfg.blocks_ahead_threshold);
+    for i in 0..rounds {
+        let spec = draw_round(&mut rng, n, &mut base, behind, ahead);
+        events.push(Event::WatchdogRound(spec.clone()));
+        *w.stats.events_by_kind.entry("watchdog_round".into()).or_insert(0) += 1;
+        if let Err(mut v) = w.round(&spec) {
+            v.at_event = i as usize;
+            violation = Some(v);
+            break;
+        }
+    }
+    let applied = events.len();
+    finish(w, cfg, events, violation, applied)
+}
+
+pub fn run_trace(cfg: RunConfig, events: Vec<Event>) -> RunOutcome {
+    canister::install_quiet_panic_hook();
+    let mut w = WdWorld::new(&cfg);
+    let mut violation = None;
+    let mut applied = 0;
+    for (i, ev) in events.iter().enumerate() {
+        if let Event::WatchdogRound(spec) = ev {
+            applied += 1;
+            *w.stats.events_by_kind.entry("watchdog_round".into()).or_insert(0) += 1;
+            if let Err(mut v) = w.round(spec) {
+                v.at_event = i;
+                violation = Some(v);
+                break;
+            }
+        }
+    }
+    finish(w, cfg, events, violation, applied)
 }
